@@ -45,8 +45,15 @@ PER_UNIT = 25
 _hashed = set()
 
 
+BIG = {'max_dirs': 40, 'max_files': 150, 'depth': 12}
+
+
 def units(tier, seed):
-    return [{'k': 'gen', 'i': i, 'n': PER_UNIT} for i in range(N[tier] // PER_UNIT)]
+    u = [{'k': 'gen', 'i': i, 'n': PER_UNIT} for i in range(N[tier] // PER_UNIT)]
+    # trees an order of magnitude larger and three times deeper, several mutations
+    for i in range(8 if tier == 'quick' else 400):
+        u.append({'k': 'big', 'i': 100000 + i, 'n': 2})
+    return u
 
 
 def setup_worker(ctx):
@@ -289,9 +296,11 @@ def judge(ctx, root, case):
                           % (rc, 'succeeded' if lib_ok else 'failed'), case, detail)
 
 
-def gen_case(rng, root):
+def gen_case(rng, root, big=False):
     nmut = rng.choice([0, 1, 1, 1, 2, 2, 3])
-    case, layout, info = scenario.build(rng, root, CLASSES, nmut)
+    if big:
+        nmut = rng.choice([0, 1, 3, 6])
+    case, layout, info = scenario.build(rng, root, CLASSES, nmut, BIG if big else None)
     dirs = scenario.existing_dirs(root)
     case['sub'] = '' if rng.random() < 0.6 else rng.choice(dirs)
     case['last_mtime'] = scenario.pick_last_mtime(rng, case) \
@@ -305,7 +314,9 @@ def run_unit(u, ctx):
         with common.Scratch('vf-c01-') as d:
             root = os.path.join(d, 't')
             try:
-                case = gen_case(rng, root)
+                case = gen_case(rng, root, big=(u['k'] == 'big'))
+                if u['k'] == 'big':
+                    ctx.count('big_trees')
             except RuntimeError as exc:
                 ctx.discarded('generator: %s' % exc)
                 continue
